@@ -70,6 +70,34 @@ def build():
 
     add("hq_v3_pics", enc_v3(), "HQ pictures coded under an explicit major_version 3", slices=(2, 1), expect="MajorVersionTooHigh")
     add("ld_v3_pics", enc_v3(profile=Profiles.low_delay, picture_bytes=16), "LD pictures coded under an explicit major_version 3", slices=(2, 1), expect="MajorVersionTooHigh")
+    # transform parameters changing between the pictures of one sequence (stale-state hazards)
+    def splice(cfs, npics=1):
+        import io as _io
+        from copy import deepcopy
+        from vc2_conformance.encoder import make_sequence
+        from vc2_conformance.bitstream import Stream, Sequence, autofill_and_serialise_stream
+        seqs = [make_sequence(cf, deepcopy(make_pictures(cf, npics))) for cf in cfs]
+        units = [seqs[0]["data_units"][0]]
+        for sq in seqs:
+            units += [du for du in sq["data_units"][1:-1]]
+        units.append(seqs[0]["data_units"][-1])
+        for du in units:
+            pp = du.get("picture_parse")
+            if pp is not None:
+                pp.setdefault("picture_header", {}).pop("picture_number", None)
+        f = _io.BytesIO()
+        autofill_and_serialise_stream(f, Stream(sequences=[Sequence(data_units=units)]))
+        return f.getvalue()
+
+    vp10 = dict(frame_width=10, frame_height=4, clean_width=10, clean_height=4)
+    asym = minimal_codec_features(video_parameters=vp10, dwt_depth_ho=1, wavelet_index_ho=WaveletFilters.le_gall_5_3, lossless=True, picture_bytes=None,
+                                  quantization_matrix={0: {"L": 0}, 1: {"H": 1}, 2: {"HL": 1, "LH": 1, "HH": 2}})
+    symm = minimal_codec_features(video_parameters=vp10, lossless=True, picture_bytes=None)
+    add("hq_asym_then_sym", splice([asym, symm]), "asymmetric picture followed by a symmetric picture in one sequence (10x4)", slices=(2, 1))
+    other = minimal_codec_features(video_parameters=vp10, wavelet_index=WaveletFilters.le_gall_5_3, wavelet_index_ho=WaveletFilters.le_gall_5_3, dwt_depth=2,
+                                   slices_x=1, slices_y=1, lossless=True, picture_bytes=None,
+                                   quantization_matrix={0: {"LL": 1}, 1: {"HL": 2, "LH": 2, "HH": 3}, 2: {"HL": 0, "LH": 1, "HH": 4}})
+    add("hq_params_change", splice([other, symm, other]), "wavelet, depth, slice counts and custom quantisation matrix change between pictures", slices=(2, 1))
     # hand-assembled: padding / auxiliary data with non-empty payloads, two sequences
     base = out["hq_padaux"][0]
     units = data_unit_offsets(base)
@@ -82,6 +110,29 @@ def build():
     b[nxt + 9:nxt + 13] = (16).to_bytes(4, "big")
     add("hq_padaux_payload", bytes(b), "padding unit with a 3 byte payload", slices=(2, 1))
     add("two_sequences", out["hq_min"][0] + out["ld_min"][0], "HQ sequence followed by an LD sequence", slices=(2, 1))
+    # non-conformant base streams (their rejection is the recorded verdict): symbolic regions around the offending unit
+    def cat_units(parts):
+        """parts: (fixture name, unit index); offsets and picture numbers fixed up to be otherwise consistent."""
+        outb = bytearray()
+        prev = 0
+        pn = 0
+        for nm, ui in parts:
+            data = out[nm][0]
+            us = data_unit_offsets_multi(data)
+            off, code, npo, ln = us[ui]
+            blk = bytearray(data[off:off + ln])
+            blk[5:9] = (0 if code == 0x10 else ln).to_bytes(4, "big")
+            blk[9:13] = prev.to_bytes(4, "big")
+            if code in (0xE8, 0xC8, 0xEC, 0xCC):
+                blk[13:17] = pn.to_bytes(4, "big")
+            outb += blk
+            prev = ln
+        return bytes(outb)
+
+    add("neg_pic_then_fragslice", cat_units([("hq_frag", 0), ("hq_v3_pics", 1), ("hq_frag", 2), ("hq_frag", 3), ("hq_frag", 4)]),
+        "v3 picture followed by slice fragments with the same picture number and no initial fragment", slices=(2, 1), expect="FragmentedPictureMissingInitialFragment")
+    add("neg_frag_then_pic", cat_units([("hq_frag", 0), ("hq_frag", 1), ("hq_frag", 2), ("hq_v3_pics", 1), ("hq_frag", 4)]),
+        "picture inside an unfinished fragmented picture", slices=(2, 1), expect="PictureInterleavedWithFragmentedPicture")
     add("two_sequences_frag_then_pic", out["hq_frag"][0] + out["hq_2pics"][0], "fragmented sequence followed by a picture sequence", slices=(2, 1))
     return out
 
